@@ -4,7 +4,7 @@
    DataRow::~DataRow / DataTable::pvDeallocateFreeRaws / pvAllocateRaw / pvDestroyRaws on every run and whose extracted
    code is replayed against event traces of the real DataTable. *)
 From Coq Require Import List Arith Bool Permutation.
-From C19 Require Import Treiber TreiberInv TreiberThms TreiberRace TreiberLive TreiberExamples.
+From C19 Require Import Treiber TreiberInv TreiberThms TreiberRace TreiberLive TreiberVariant TreiberExact TreiberBoundary TreiberExamples.
 Import ListNotations.
 
 (* The 16-clause invariant holds in every state reachable under ANY schedule. *)
@@ -173,6 +173,90 @@ Theorem C19_disposers_never_touch_owner_chain :
   match l with DBegin _ _ | DLoad _ | DLink _ | DCas _ _ => drain s' = drain s /\ own s' = own s | _ => True end.
 Proof. exact disposer_steps_keep_drain. Qed.
 Print Assumptions C19_disposers_never_touch_owner_chain.
+
+(* ---- WHY the link word is rewritten after a failed CAS.  In the variant machine `step_nr` (a failed CAS only refreshes
+   the expected value, as `while (!compare_exchange_weak(headRaw, raw));` would) a concrete 2-disposer schedule loses a
+   published row for ever ... *)
+Theorem C19_norelink_variant_loses_a_row_refuted :
+  exists s, run_nr init sched_lost = Some s /\ quiescent s /\
+    In (1, 1) (published s) /\ ~ In (1, 1) (reclaimed s) /\ reclaimed s = [(0, 1)] /\ status s 1 = Listed.
+Proof. exact norelink_loses_a_row_refuted. Qed.
+Print Assumptions C19_norelink_variant_loses_a_row_refuted.
+
+(* ... and another one makes the owner deallocate a row that is ALIVE (the stale link points to a buffer that was
+   reclaimed and handed out again); the invariant of the real machine fails there.  The real machine refuses the
+   schedule: after a failed CAS only the load is enabled. *)
+Theorem C19_norelink_variant_frees_a_live_row_refuted :
+  exists s n, run_nr init sched_live_freed = Some s /\
+    own s = ONext 1 n /\ status s 1 = Detached /\ step s (OFree None) <> None /\ ~ inv s.
+Proof. exact norelink_frees_a_live_row_refuted. Qed.
+Print Assumptions C19_norelink_variant_frees_a_live_row_refuted.
+
+Theorem C19_real_machine_rejects_norelink_schedule : run init sched_lost = None.
+Proof. exact real_machine_rejects_sched_lost. Qed.
+Print Assumptions C19_real_machine_rejects_norelink_schedule.
+
+(* ---- The owner's program modelled exactly (the `freeRaws != nullptr` check of pvAllocateRaw is a separate atomic load;
+   drain only after "non-null", allocate only after "null" or after that drain; pvDestroyRaws drains unconditionally).
+   Every state of the exact machine is a state of the over-approximation, so all theorems above apply to it. *)
+Theorem C19_exact_owner_program_refines :
+  forall xs, reachable_x xs -> reachable (base xs) /\ inv (base xs).
+Proof. exact exact_refines. Qed.
+Print Assumptions C19_exact_owner_program_refines.
+
+(* A published row is never missed by the check (only a push that has not completed yet can be missed) ... *)
+Theorem C19_check_never_misses_published_row :
+  forall xs xs' r, inv (base xs) -> In r (shared (base xs)) -> stepx xs XCheck = Some xs' -> xo xs' = XChecked true.
+Proof. exact check_never_misses_published. Qed.
+Print Assumptions C19_check_never_misses_published_row.
+
+(* ... hence skipping a drain never loses a row: once r is on the shared list and the owner is between operations, in
+   EVERY continuation (any interleaving with any number of disposers) the next completed allocation and the next
+   completed drain (of NewRow, Clear or the table destructor) happen only after r has been reclaimed. *)
+Theorem C19_published_row_reclaimed_by_next_alloc_or_drain :
+  forall ls xs xs' r,
+  reachable_x xs -> xo xs = XIdle -> own (base xs) = OIdle -> In r (shared (base xs)) ->
+  runx xs ls = Some xs' -> existsb completes ls = true ->
+  In (r, gen (base xs) r) (reclaimed (base xs')).
+Proof. exact published_row_reclaimed_by_next_alloc_or_drain. Qed.
+Print Assumptions C19_published_row_reclaimed_by_next_alloc_or_drain.
+
+(* The racy miss concretely: the check reads null while a disposer is between load and CAS, NewRow allocates without
+   draining, the row is published afterwards, stays listed, the next check cannot answer null, the next NewRow reclaims it. *)
+Theorem C19_racy_miss_is_harmless_example :
+  (exists xs, runx xinit sched_miss = Some xs /\ xo xs = XIdle /\ shared (base xs) = [0] /\
+              reclaimed (base xs) = [] /\ status (base xs) 2 = Detached) /\
+  (exists xs, runx xinit (sched_miss ++ sched_miss_next) = Some xs /\ shared (base xs) = [] /\
+              reclaimed (base xs) = [(0, 1)] /\ gen (base xs) 0 = 2) /\
+  runx xinit (sched_miss ++ [XCheck; XL (OAlloc 0 None)]) = None.
+Proof. exact racy_miss_is_harmless_example. Qed.
+Print Assumptions C19_racy_miss_is_harmless_example.
+
+(* ---- The boundary of the claim.  If, when the table is destroyed, no row is detached and no destructor is in flight,
+   then in every continuation no step touches the freed list head ... *)
+Theorem C19_table_outlives_rows_no_use_after_free :
+  forall ds ds1 ls ds2 l,
+  inv (st ds) -> no_rows_outside (st ds) ->
+  stepd ds DDestroy = Some ds1 -> rund ds1 ls = Some ds2 ->
+  ~ use_after_free ds2 l.
+Proof. exact table_outlives_rows_no_use_after_free. Qed.
+Print Assumptions C19_table_outlives_rows_no_use_after_free.
+
+Theorem C19_table_outlives_rows_nonvacuous :
+  exists ds ds1, rund dinit [DL (OAlloc 0 None); DL (DBegin 1 0); DL (DLoad 1); DL (DLink 1); DL (DCas 1 false);
+                             DL OExchange; DL ORead; DL (OFree None); DL ODone] = Some ds /\
+    no_rows_outside (st ds) /\ stepd ds DDestroy = Some ds1 /\ reclaimed (st ds) = [(0, 1)].
+Proof. exact table_outlives_rows_nonvacuous. Qed.
+Print Assumptions C19_table_outlives_rows_nonvacuous.
+
+(* ... and outside the boundary (NOT claimed by C19; client error): the table is destroyed while one row is still
+   detached; that row's destructor loads the freed head and its buffer can never be reclaimed. *)
+Theorem C19_table_destroyed_before_its_row_refuted :
+  exists ds, rund dinit [DL (OAlloc 0 None); DDestroy; DL (DBegin 1 0)] = Some ds /\
+    use_after_free ds (DLoad 1) /\
+    (forall l, owner_label l = true -> stepd ds (DL l) = None) /\ status (st ds) 0 = Pending.
+Proof. exact table_destroyed_before_its_row_refuted. Qed.
+Print Assumptions C19_table_destroyed_before_its_row_refuted.
 
 (* Non-vacuity: a 3-thread schedule with a genuinely failed CAS ... *)
 Theorem C19_nonvacuous_failed_cas :
